@@ -123,7 +123,7 @@ def gen_interleaving(rng, labels, ncycles, fault_cycles=()):
     return sched
 
 
-def run_interleaved(replicas, tape, sched, faults, res, on_cycle=None):
+def run_interleaved(replicas, tape, sched, faults, res, on_cycle=None, before=None):
     """Drive replicas per the recorded schedule; faults = {cycle: [fault...]} applied to the
     replica named in fault['replica'] (or all) right before it consumes that cycle.
     on_cycle(cycle_index) is called once every replica has passed that cycle; it returns a
@@ -135,7 +135,7 @@ def run_interleaved(replicas, tape, sched, faults, res, on_cycle=None):
         if r.pos >= len(tape):
             continue
         for fi, f in enumerate(faults.get(r.pos, [])):
-            if f['kind'] != 'reject_step':
+            if f['kind'] != 'reject_step' or getattr(r, 'sim', None) is None:
                 continue
             if f.get('replica') not in (None, r.label):
                 continue
@@ -145,6 +145,10 @@ def run_interleaved(replicas, tape, sched, faults, res, on_cycle=None):
             v = world.apply_reject(r.sim, f, tape[r.pos], r.label)
             res.faults.hit('reject_step')
             res.log.log('fault', 'reject_step', [r.label, f['wire']], v is None)
+            if v:
+                return v
+        if before is not None:
+            v = before(r, r.pos)
             if v:
                 return v
         b = min(b, len(tape) - r.pos)
